@@ -25,6 +25,21 @@ from ..core import Ctx
 from ..leanbridge import Driver
 
 LEG = "kd_sp"
+LEAN_MODULES = ["TorchDataVerif.Props.SP"]
+THEOREMS_C03 = ["TDV.SP.stream_eq_ref_batch", "TDV.SP.stream_eq_ref_bare", "TDV.SP.stream_eq_ref_epochs", "TDV.SP.refMap_total",
+                "TDV.SP.stream_eq_ref_iter", "TDV.SP.stream_eq_ref_iter_one", "TDV.SP.stream_eq_ref_iter_epochs",
+                "TDV.SP.sampler_orders"]
+THEOREMS_C10 = ["TDV.SP.error_position_map", "TDV.SP.error_position_iter_auto", "TDV.SP.error_position_iter_one",
+                "TDV.SP.error_position_generator", "TDV.SP.error_position_generator_one", "TDV.SP.plainGen_outcomes"]
+THEOREMS_C01 = ["TDV.SP.resume_exact_map", "TDV.SP.resume_exact_map_drop", "TDV.SP.resume_epochs", "TDV.SP.resume_epochs_finished",
+                "TDV.SP.resume_chain_map", "TDV.SP.law_plain_bare", "TDV.SP.law_plain_batch", "TDV.SP.law_obj_bare",
+                "TDV.SP.law_obj_batch", "TDV.SP.law_random_bare", "TDV.SP.law_random_batch",
+                "TDV.SP.resume_exact_iter", "TDV.SP.resume_exact_ffwd", "TDV.SP.resume_exact_ffwd_finished",
+                "TDV.SP.resume_next_epoch_iter", "TDV.SP.resume_chain_iter", "TDV.SP.resume_chain_ffwd",
+                "TDV.SP.readme_stateLaw", "TDV.SP.itObj_stateLaw", "TDV.SP.selfIter_stateLaw", "TDV.SP.infSrc_bare",
+                "TDV.SP.infSrc_batch",
+                # the known exception: full statement is false (witness), restriction proved
+                "TDV.SP.resume_next_epoch_statement_false", "TDV.SP.resume_next_epoch_partial"]
 TORCH_SEED = 20261001  # global torch seed set before every loader construction (shuffle without generator= seeds from it)
 
 RULE_KD = ("K-D SP: configurations from harness.sdl.gen_cfg(max_w=0) (all dataset kinds, batch_size None/1-4, drop_last, sampler "
@@ -382,3 +397,29 @@ def replay_kd(ctx: Ctx, inp) -> Tuple[bool, str]:
     ans = Driver().run([req])[0]
     d = compare(ctx, cfg, ops, obs, ans)
     return (d is None), (d or "model and implementation agree")
+
+
+# ------------------------------------------------------------------------------------------------
+# the known exception (TDV.SP.resume_next_epoch_statement_false) replayed on the real code
+
+
+WITNESS_CFG = {"kind": "map", "W": 0, "bs": None, "drop_last": False, "n": 7, "sampler": "shuffle_gen"}
+WITNESS_OPS = ([["fresh"], ["iter"], ["next"], ["state"]] + [["next"]] * 7 + [["iter"]] + [["next"]] * 8 +
+               [["fresh"], ["load", 0], ["iter"]] + [["next"]] * 7 + [["iter"]] + [["next"]] * 8)
+
+
+def replay_shared_generator_witness(ctx: Ctx) -> Tuple[bool, str]:
+    """shuffle=True with generator= shared by loader and sampler, checkpoint after 1 item: returns (the real code shows
+    the exception AND the model reproduces the real observations, detail)."""
+    ops, obs, req, real = one_case(WITNESS_CFG, WITNESS_OPS)
+    ans = Driver().run([req])[0]
+    d = compare(ctx, WITNESS_CFG, ops, obs, ans)
+    if d is not None:
+        return False, "model does not reproduce the real run: " + d
+    nexts = [o for op, o in zip(ops, obs) if op[0] == "next"]
+    un_ep1, un_ep2 = nexts[0:8], nexts[8:16]
+    re_ep1, re_ep2 = nexts[16:23], nexts[23:31]
+    rest_ok = re_ep1 == un_ep1[1:]
+    next_differs = re_ep2 != un_ep2
+    return (rest_ok and next_differs), (f"rest of the epoch equal: {rest_ok}; following epoch uninterrupted {un_ep2[:7]} vs "
+                                        f"resumed {re_ep2[:7]}")
